@@ -4,7 +4,9 @@ package internal
 
 import (
 	"context"
+	"errors"
 	"fmt"
+	"runtime"
 	"sync"
 	"sync/atomic"
 	"testing"
@@ -36,10 +38,14 @@ func TestVerifLateJoiner(t *testing.T) {
 		}
 		s := NewStore(opt)
 		ls := NewLoadingStore(s)
+		failFirst := c%4 == 1 // the first load fails: a failure must not be served to a Get that starts after it ended
 		ls.Loader(func(ctx context.Context, key int) (Loaded[int], error) {
 			mu.Lock()
 			defer mu.Unlock()
 			loads++
+			if failFirst && loads == 1 {
+				return Loaded[int]{}, errors.New("load failed")
+			}
 			return Loaded[int]{Value: src[key], Cost: 1}, nil
 		})
 		key := r.intn(1000)
@@ -69,6 +75,39 @@ func TestVerifLateJoiner(t *testing.T) {
 			tr.viol("C10: a loading Get did not reach the end of its load within 10 s")
 			VerifYield.Store(nil)
 			close(resume)
+			s.Close()
+			continue
+		}
+		if failFirst {
+			// the load has ended with an error and nothing is stored; a Get that starts now must run the loader again
+			var err2 error
+			go func() { v2, err2 = ls.Get(context.Background(), key); close(d2) }()
+			deadline := time.Now().Add(2 * time.Second)
+			for time.Now().Before(deadline) {
+				select {
+				case <-d2:
+					deadline = time.Now()
+					continue
+				default:
+				}
+				if vparkedIn(".(*LoadingStore") >= 1 {
+					break
+				}
+				time.Sleep(50 * time.Microsecond)
+			}
+			close(resume)
+			for _, d := range []chan struct{}{d1, d2} {
+				select {
+				case <-d:
+				case <-time.After(10 * time.Second):
+					tr.viol("C10: a loading Get overlapping the cleanup of a failed load did not return within 10 s")
+				}
+			}
+			VerifYield.Store(nil)
+			if err2 != nil || v2 != 1000+c {
+				tr.viol(fmt.Sprintf("C13: the load of key %d failed; a loading Get that STARTED after the loader had returned its error was answered (%d, %v) instead of running the loader again (loader ran %d time(s)): the failure was served from the finished, not yet cleaned-up call", key, v2, err2, loads))
+			}
+			tr.op("trial", ss("93", "2", "0"), ss("1"))
 			s.Close()
 			continue
 		}
@@ -120,6 +159,104 @@ func TestVerifLateJoiner(t *testing.T) {
 			tr.viol("C01: " + msg)
 		}
 		tr.op("trial", ss("93", b2s(secondary), b2s(joined)), ss("1"))
+		s.Close()
+	}
+}
+
+// C13 / C01: the leader's function forgets its singleflight key BEFORE it releases the shard lock (c13_forget_in_source
+// is the static side of this).  Here the group mutex is held by the harness while the loader returns, so the leader parks
+// inside Forget; at that moment the shard lock must still be held - otherwise a Delete can pass and a Get that starts
+// afterwards can join the finished call, which the harness then plays out (one P, the harness barges ahead of the parked
+// leader when it releases the group mutex).
+func TestVerifForgetUnderShardLock(t *testing.T) {
+	tr := vopen(t, "forgetlock")
+	defer tr.close()
+	tr.init(0)
+	clockOff()
+	xrandOff()
+	defer runtime.GOMAXPROCS(runtime.GOMAXPROCS(1))
+	r := &vrng{s: vseed()*141650963 + 5}
+	trials := vscale(20, 300)
+	for c := 0; c < trials; c++ {
+		var mu sync.Mutex
+		src := map[int]int{}
+		loads := 0
+		started := make(chan struct{}, 1)
+		release := make(chan struct{})
+		gate := true
+		s := NewStore(&StoreOptions[int, int]{MaxSize: int64(10 + r.intn(100))})
+		ls := NewLoadingStore(s)
+		ls.Loader(func(ctx context.Context, key int) (Loaded[int], error) {
+			mu.Lock()
+			g := gate
+			gate = false
+			mu.Unlock()
+			if g {
+				started <- struct{}{}
+				<-release
+			}
+			mu.Lock()
+			defer mu.Unlock()
+			loads++
+			return Loaded[int]{Value: src[key], Cost: 1}, nil
+		})
+		key := r.intn(1000)
+		mu.Lock()
+		src[key] = 1000 + c
+		mu.Unlock()
+		_, idx := s.index(key)
+		sh := s.shards[idx]
+		d1 := make(chan struct{})
+		var v1 int
+		go func() { v1, _ = ls.Get(context.Background(), key); close(d1) }()
+		select {
+		case <-started:
+		case <-time.After(10 * time.Second):
+			tr.viol("C10: a loading Get did not reach its loader within 10 s")
+			close(release)
+			s.Close()
+			continue
+		}
+		sh.group.mu.Lock() // the leader is registered and inside its loader
+		close(release)
+		parked := false
+		deadline := time.Now().Add(5 * time.Second)
+		for time.Now().Before(deadline) {
+			if vparkedIn(").Forget(") >= 1 {
+				parked = true
+				break
+			}
+			time.Sleep(100 * time.Microsecond)
+		}
+		v2 := -1
+		if parked && sh.mu.TryLock() {
+			// the shard lock is free although the finished call is still registered
+			sh.mu.Unlock()
+			mu.Lock()
+			src[key] = 2000 + c
+			mu.Unlock()
+			s.Delete(key)
+			sh.group.mu.Unlock()
+			v2, _ = ls.Get(context.Background(), key)
+			msg := fmt.Sprintf("the leader of the load of key %d had released the shard lock while its finished call was still registered (it was parked inside Forget): Delete(%d) passed, and a loading Get that started after the Delete had returned was answered %d (the data source says %d now; loader ran %d time(s))", key, key, v2, 2000+c, loads)
+			if v2 != 2000+c {
+				tr.viol("C13: " + msg)
+				tr.viol("C01: " + msg)
+			} else {
+				tr.viol("C13: " + msg + " - the stale answer did not materialise in this run, the window is open all the same")
+			}
+		} else {
+			sh.group.mu.Unlock()
+		}
+		select {
+		case <-d1:
+		case <-time.After(10 * time.Second):
+			tr.viol("C10: the leader of a load did not return within 10 s after the group mutex was released")
+		}
+		if v1 != 1000+c {
+			tr.viol(fmt.Sprintf("C13: the leader of the load of key %d returned %d, its loader had returned %d", key, v1, 1000+c))
+		}
+		tr.op("trial", ss("86", b2s(parked)), ss(i64(int64(v2))))
 		s.Close()
 	}
 }
